@@ -240,7 +240,7 @@ def obligations(tier, seed):
     cfgs = [(',', 'quoted'), (',', 'quoted_rfc'), ('\t', 'simple'), (' ', 'whitespace'), ('', 'monocolumn'), (';', 'quoted_rfc'), (' ', 'quoted'), ('|', 'simple'), ('::', 'simple'), ('§', 'quoted')]
     seps = ['\n', '\r\n', '\r']
     if quick:
-        shp = [[(2,)], [(1, 1)], [(0, 2)], [(1,), (1,)], [(1, 0), (1,)], [(3,)], [(1, 2)], [(1,), (0, 1)], [(1, 1), (1, 0)]]
+        shp = [[(2,)], [(1, 1)], [(0, 2)], [(1,), (1,)], [(1, 0), (1,)], [(3,)], [(1, 2)], [(1,), (0, 1)], [(1, 1), (1, 0)], [(1,), (0,)], [(0,)], [(0,), (0,)]]   # incl. one-column tables ending in an empty cell
         n = seed
         for ci, (dlm, policy) in enumerate(cfgs):
             for si, shape in enumerate(shp):
